@@ -15,7 +15,7 @@ RULE = ("Same layout/stimulus space as C04. Every cycle: element.w_stb of every 
         "the model (identical observable behaviour). Non-trivial = a multi-chunk or padded writable "
         "register written completely with >= 1 other writable register present. Distinct = canonical JSON.")
 BUDGET = {"quick": (16, 400), "thorough": (16, 6000)}
-ESSENTIAL = ["late_registers", "beyond_13_address_bits", "high_base_address", "unaligned", "padded", "multi_chunk", "shared_chunk", "stim:conf", "stim:arb", "aborted",
+ESSENTIAL = ["beyond_13_address_bits", "high_base_address", "unaligned", "padded", "multi_chunk", "shared_chunk", "stim:conf", "stim:arb", "aborted",
              "last_is_padding", "write_to_ro", "unmapped_access", "differential"]
 ASSUMPTIONS = [
     "w_data bits of chunks not written in the current transaction are don't-care",
